@@ -353,17 +353,14 @@ theorem withUseCur_inv (d : DST) (f : St → St) (hf : ∀ s, CInv d s → CInv 
   unfold withUseCur
   exact (Same.setUseCur _ false).inv (hf _ ((Same.setUseCur s true).inv hi))
 
-theorem reopenAfterClose_inv (cfg : Cfg) (d : DST) (erSize : Nat) (s : St) (hi : CInv d s) :
-    CInv d (reopenAfterClose cfg d erSize s).2 := by
+theorem reopenAfterClose_inv (cfg : Cfg) (d : DST) (s : St) (hi : CInv d s) :
+    CInv d (reopenAfterClose cfg d s).2 := by
   unfold reopenAfterClose
   simp only
   have h1 := (cbFull_same s).inv hi
   split
   · exact noSpace_inv d _ _ h1
-  · have h2 := withUseCur_inv d (cbOpen cfg d) (cbOpen_inv cfg d) _ h1
-    split
-    · exact h2
-    · exact ((Same.ev _ .assertFail trivial).trans (Same.halt _)).inv h2
+  · exact withUseCur_inv d (cbOpen cfg d) (cbOpen_inv cfg d) _ h1
 
 theorem reserveTail_inv (cfg : Cfg) (d : DST) (erSize : Nat) (s : St) (hi : CInv d s) :
     CInv d (reserveTail cfg d erSize s).2 := by
@@ -371,11 +368,11 @@ theorem reserveTail_inv (cfg : Cfg) (d : DST) (erSize : Nat) (s : St) (hi : CInv
   split
   · exact hi
   · split
-    · exact reopenAfterClose_inv cfg d erSize _ (withUseCur_inv d (cbClose cfg d) (cbClose_inv cfg d) s hi)
+    · exact reopenAfterClose_inv cfg d _ (withUseCur_inv d (cbClose cfg d) (cbClose_inv cfg d) s hi)
     · exact hi
 
-theorem reserve_inv (cfg : Cfg) (d : DST) (erSize : Nat) (s : St) (hi : CInv d s) :
-    CInv d (reserve cfg d erSize s).2 := by
+theorem reserve_inv (cfg : Cfg) (d : DST) (erSize emptySize : Nat) (s : St) (hi : CInv d s) :
+    CInv d (reserve cfg d erSize emptySize s).2 := by
   unfold reserve
   split
   · exact noSpace_inv d _ _ hi
@@ -414,19 +411,21 @@ theorem traceWrite_inv (cfg : Cfg) (d : DST) (e : ERT) (args : Args) (s : St) (h
     · exact h4
     · exact (Same.setFlag _ false).inv h4
 
-theorem traceAfterReserve_inv (cfg : Cfg) (d : DST) (e : ERT) (args : Args) (r : Bool × St) (hi : CInv d r.2) :
-    CInv d (traceAfterReserve cfg d e args r) := by
+theorem traceAfterReserve_inv (cfg : Cfg) (d : DST) (e : ERT) (args : Args) (erAt erSize : Nat) (r : Bool × St)
+    (hi : CInv d r.2) : CInv d (traceAfterReserve cfg d e args erAt erSize r) := by
   unfold traceAfterReserve
   split
   · exact hi
   · split
     · exact (Same.setFlag _ false).inv hi
-    · exact traceWrite_inv cfg d e args r.2 hi
+    · split
+      · exact (Same.setFlag _ false).inv (noSpace_inv d true r.2 hi)
+      · exact traceWrite_inv cfg d e args r.2 hi
 
 theorem traceEnabled_inv (cfg : Cfg) (d : DST) (e : ERT) (args : Args) (s : St) (hi : CInv d s) :
     CInv d (traceEnabled cfg d e args s) := by
   unfold traceEnabled
-  exact traceAfterReserve_inv cfg d e args _ (reserve_inv cfg d _ s hi)
+  exact traceAfterReserve_inv cfg d e args _ _ _ (reserve_inv cfg d _ _ s hi)
 
 theorem traceBody_inv (cfg : Cfg) (d : DST) (e : ERT) (args : Args) (s : St) (hi : CInv d s) :
     CInv d (traceBody cfg d e args s) := by
